@@ -96,7 +96,7 @@ def main():
             if want and prop not in want:
                 continue
             mutate(os.path.join(wt, f), fn, body)
-            r = subprocess.run(f"cd /verif && VERIF_REPO={wt} ./check {prop} --tier quick", shell=True, capture_output=True, text=True)
+            r = subprocess.run(f"cd /verif && VERIF_EVIDENCE_DIR=/tmp/verif-scratch-evidence VERIF_REPO={wt} ./check {prop} --tier quick", shell=True, capture_output=True, text=True)
             subprocess.run(f"git -C {wt} checkout -- .", shell=True)
             tag = "ok  " if r.returncode == 1 else "BAD "
             bad += r.returncode != 1
